@@ -1331,6 +1331,8 @@ pub fn parse_chunk_size(buf: &[u8])
                 size *= RADIX;
                 size += (b + 10 - b'A') as u64;
             }
+            // The chunk size needs at least one digit: `chunk-size = 1*HEXDIG`.
+            b'\r' | b';' | b'\t' | b' ' if count == 0 => return Err(InvalidChunkSize),
             b'\r' => {
                 match next!(bytes) {
                     b'\n' => break,
